@@ -6,20 +6,27 @@ PROP = {'kani_groups': ['hk_batcher'],
               'iteration (de-asynced exec) from an arbitrary state with symbolic processor outcomes and a symbolic '
               'panic plan; liveness over many iterations follows by the written induction (every iteration '
               'terminates and re-establishes an arbitrary valid state)',
- 'functions': ['Receiver::exec (one loop iteration incl. the whole retry loop and the shutdown return), '
+ 'functions': ['emit_batcher::sync::{blocking_flush, Trigger::{new, trigger, wait_timeout}} (c07c08_*_s_blocking_flush_*: returns false only on '
+               'expiry, never parks longer than what is left of the timeout, never parks holding the state lock, no self-deadlock on the '
+               'trigger lock; blocking_send: harnesses written (c08c09_x_s_blocking_send_*) but none fits CBMC - NOT decided beyond send_or_wait)',
+               'Receiver::exec (one loop iteration incl. the whole retry loop and the shutdown return), '
                'Receiver::drop, Sender::drop',
                'Watchers::{push_*, notify_*}, Retry::{new, reset, next}, Delay::{new, reset, next}, '
                'CatchUnwind::poll, Sender::{when_empty, when_flushed}',
+               'Sender::send (c06c07c08c09_q_s_send: an overflowing send discards items only; every flush / empty callback '
+               'parked on the pending batch stays registered, so it is still invoked exactly once by the receiver)',
                'E2 (mir2smt, MIR -> SMT-LIB Int, cvc5 + z3): Delay::{next, reset}, Retry::{reset, next}, Capacity::next over '
                'their full integer ranges with the Delay::new / Retry::new constants read from the MIR of `bounded`'],
- 'bounds': 'receiver iteration: 0..=2 (thorough 3) items, 1 (thorough 0..2) watchers of each kind, retry budget 0/1 '
+ 'bounds': 'blocking_flush: capacity 1..=2, concrete pre-state SHAPES per harness (idle / batch in flight / item pending / closed) '
+           'with symbolic contents, <= 2 wake-ups per call, '
+           'whole-second clock readings and timeouts < 2^16 s; receiver iteration: 0..=2 (thorough 3) items, 1 (thorough 0..2) watchers of each kind, retry budget 0/1 '
            '(thorough 2) instead of 10, outcomes {Ok, Err no-retry, Err retry(any remainder)} per attempt, panics at '
            'any guarded call; Retry: any budget, 5 calls after reset; Delay: one step from any state with '
            'whole-millisecond current/step/max < 256 s, plus the two configured delays for 14 steps; Watchers: <= 3 '
            'of each kind, every panic plan',
  'outside': 'CANNOT BE ENCODED (Kani executes one thread, no OS): batcher/src/tokio.rs and web.rs entirely; the '
-            'blocking wrappers of batcher/src/sync.rs (Trigger/condvar wait_timeout, Instant, thread spawn/join, its '
-            'block_on); wall-clock time; real unwinding; the std mutex itself (assumed). The multi-step composition '
+            'real condition variable, Instant, thread spawn/join of batcher/src/sync.rs (its blocking wrappers run on '
+            'stand-ins, see stubs); wall-clock time; real unwinding; the std mutex itself (assumed). The multi-step composition '
             '(any number of senders, any interleaving, histories of any length) is a WRITTEN induction over the '
             'solver-checked one-step obligations (harness/hk_batcher/src/lib.rs), not a solver result; a bounded '
             'multi-step schedule harness did not fit CBMC (20 min symex, no verdict). Also outside — the whole last '
@@ -28,7 +35,10 @@ PROP = {'kani_groups': ['hk_batcher'],
             'text mentions for blocking calls inside a tokio runtime: tokio and OS time cannot be encoded; joining '
             'of worker threads in the file/OTLP emitters; processor futures that never complete; a processor that '
             'panics after partially mutating its own state',
- 'stubs': ['batcher:mutex — std::sync::Mutex in batcher/src/lib.rs -> single-owner cell with the same lock() API, an '
+ 'stubs': ["batcher:sync-* — batcher/src/sync.rs: std::sync::{Condvar, Mutex} and std::time::Instant -> stand-ins: Instant reads a harness clock (whole seconds); Condvar::wait_timeout(guard, dur) releases the guard, runs the harness environment step (time passes; the batch carrying the parked callbacks may finish, which runs them) and returns woken / timed out (spurious wake-ups included); assumed of the std condvar: a wait reported as timed out lasted at least dur; the Trigger's own mutex is a single-owner cell",
+           'batcher:send-or-wait-pub — visibility only: the private Sender::send_or_wait is made pub in the scratch tree (harness module s_sow)',
+           "the mutex stand-in also counts the guards alive (HELD): every harness callback standing for user code (flush / empty callbacks, samplers, processors, waits, the condvar environment step) asserts HELD == 0 — user code never runs inside the channel's critical section",
+           'batcher:mutex — std::sync::Mutex in batcher/src/lib.rs -> single-owner cell with the same lock() API, an '
            'acquisition counter and a hook called before every acquisition; asserts the lock is never re-acquired '
            "while held. Mutual exclusion itself is std's contract and is ASSUMED",
            'batcher:catch-unwind — std::panic::catch_unwind -> panic plan: the i-th guarded call either runs its '
